@@ -267,6 +267,10 @@ Guard1(g, v, r)    == IF InRange(g, v) THEN Ok(r) ELSE Oor(g)
 Step(g, c) ==
     CASE c.op = "resize" ->
             IF c.k < g.n THEN Inv(g) ELSE Ok(Resize(g, c.k))
+      \* The VALUE moves to another object (c.how: copy-assigned or move-assigned into a fresh
+      \* object, move-constructed, swapped with a fresh object) or is assigned to itself; the history
+      \* continues on the object that now holds it.  The graph is a value: nothing changes.
+      [] c.op = "relocate" -> Ok(g)
       [] c.op = "clearEdges" -> Ok(ClearEdgesAny(g))
       \* ------------------------------------------------ labelled / unlabelled
       [] c.op = "addEdge" /\ Kind \in {"nolabel", "labeled"} ->
